@@ -159,6 +159,8 @@ def for_range(ctx, fornode):
     if it.get("k") != "Range":
         return None
     pat = fornode["pat"]
+    if pat.get("k") == "Wild":
+        return (("wild", fornode.get("id")), ctx.term(it["lo"]), ctx.term(it["hi"]), bool(it.get("incl")), rev)
     if pat.get("k") != "Bind":
         return None
     return (("var", pat["v"]), ctx.term(it["lo"]), ctx.term(it["hi"]), bool(it.get("incl")), rev)
@@ -237,6 +239,11 @@ def _affected(f, root, kind):
         return True
     place = project(root, path)
     return reads_elem or any(_mentions(t, lambda x: x == place) for t in ts)
+
+
+def _affected_term(t, root, kind):
+    """Like _affected, for a single term."""
+    return _affected(("bool", t, True), root, kind)
 
 
 def _stable(ctx, f, origin, node):
